@@ -362,19 +362,57 @@ func c11NewRequest(method, target, lenSpec string) (r *http.Request) {
 	return r
 }
 
-// c11Decorate sets the credentials and content type of a request.
-func c11Decorate(r *http.Request, cookie, basic, ctype string) {
+// c11HdrTokens is the vocabulary of further request headers a line may ask
+// for.  None of them may influence whether a handler is entered.
+var c11HdrTokens = []string{
+	"origin", "acrm", "acrh", "xrw", "xff", "xfproto", "xfhost", "xrealip", "upgrade", "bearer2",
+	"ckother", "ck2valid", "ck2unknown", "cksplit", "gzip", "host", "referer", "secfetch",
+}
+
+// c11Decorate sets the credentials, the content type and the further headers
+// (hdrs: "-" or a comma-separated list of c11HdrTokens) of a request.
+func c11Decorate(r *http.Request, cookie, basic, ctype, hdrs string) {
+	tok := map[string]bool{}
+	if hdrs != "-" && hdrs != "" {
+		for _, t := range strings.Split(hdrs, ",") {
+			tok[t] = true
+		}
+	}
+
+	// Cookies: the first agh_session value is the one that counts
+	// (http.Request.Cookie); other names and later values must not matter.
+	var cookies []string
+	if tok["ckother"] {
+		cookies = append(cookies, "session="+c11ValidTok, "agh_sessionx="+c11ValidTok, "AGH_SESSION="+c11ValidTok)
+	}
 	switch cookie {
 	case "none":
 	case "unknown":
-		r.AddCookie(&http.Cookie{Name: sessionCookieName, Value: c11UnknownTok})
+		cookies = append(cookies, sessionCookieName+"="+c11UnknownTok)
 	case "expired":
-		r.AddCookie(&http.Cookie{Name: sessionCookieName, Value: c11ExpiredTok})
+		cookies = append(cookies, sessionCookieName+"="+c11ExpiredTok)
 	case "valid":
-		r.AddCookie(&http.Cookie{Name: sessionCookieName, Value: c11ValidTok})
+		cookies = append(cookies, sessionCookieName+"="+c11ValidTok)
 	default:
 		panic("bad cookie class " + cookie)
 	}
+	if cookie != "none" {
+		// A second value only after a first one: alone it would be the first.
+		if tok["ck2valid"] {
+			cookies = append(cookies, sessionCookieName+"="+c11ValidTok)
+		}
+		if tok["ck2unknown"] {
+			cookies = append(cookies, sessionCookieName+"="+c11UnknownTok)
+		}
+	}
+	switch {
+	case len(cookies) == 0:
+	case tok["cksplit"]:
+		r.Header["Cookie"] = cookies
+	default:
+		r.Header.Set("Cookie", strings.Join(cookies, "; "))
+	}
+
 	switch basic {
 	case "none":
 	case "right":
@@ -392,8 +430,36 @@ func c11Decorate(r *http.Request, cookie, basic, ctype string) {
 	default:
 		panic("bad basic class " + basic)
 	}
+	if tok["bearer2"] {
+		// A further Authorization value, after the first one if there is one.
+		r.Header.Add("Authorization", "Bearer "+c11ValidTok)
+	}
 	if ctype != "" {
 		r.Header.Set("Content-Type", ctype)
+	}
+
+	set := func(t, name, value string) {
+		if tok[t] {
+			r.Header.Set(name, value)
+		}
+	}
+	set("origin", "Origin", "http://frontend.example")
+	set("acrm", "Access-Control-Request-Method", "POST")
+	set("acrh", "Access-Control-Request-Headers", "content-type, authorization")
+	set("xrw", "X-Requested-With", "XMLHttpRequest")
+	set("xff", "X-Forwarded-For", "127.0.0.1, 10.0.0.1")
+	set("xfproto", "X-Forwarded-Proto", "https")
+	set("xfhost", "X-Forwarded-Host", "localhost")
+	set("xrealip", "X-Real-IP", "127.0.0.1")
+	set("gzip", "Accept-Encoding", "gzip")
+	set("referer", "Referer", "http://127.0.0.1/login.html")
+	set("secfetch", "Sec-Fetch-Site", "same-origin")
+	if tok["upgrade"] {
+		r.Header.Set("Upgrade", "websocket")
+		r.Header.Add("Connection", "Upgrade")
+	}
+	if tok["host"] {
+		r.Host = "admin.example:8443"
 	}
 }
 
@@ -541,12 +607,12 @@ func c11StartServer(t *testing.T) {
 // c11Wire writes one HTTP/1.1 request byte by byte on a TCP connection: a body
 // of unknown length really is a chunked body, and ContentLength is whatever
 // net/http's server makes of it.
-func c11Wire(method, target, cookie, basic, ctype, lenSpec string) []string {
-	hr := &http.Request{Header: http.Header{}}
-	c11Decorate(hr, cookie, basic, ctype)
+func c11Wire(method, target, cookie, basic, ctype, lenSpec, hdrs string) []string {
+	hr := &http.Request{Header: http.Header{}, Host: c11.wireAddr}
+	c11Decorate(hr, cookie, basic, ctype, hdrs)
 
 	var sb strings.Builder
-	fmt.Fprintf(&sb, "%s %s HTTP/1.1\r\nHost: %s\r\nConnection: close\r\n", method, target, c11.wireAddr)
+	fmt.Fprintf(&sb, "%s %s HTTP/1.1\r\nHost: %s\r\nConnection: close\r\n", method, target, hr.Host)
 	for k, vs := range hr.Header {
 		for _, v := range vs {
 			fmt.Fprintf(&sb, "%s: %s\r\n", k, v)
@@ -591,19 +657,29 @@ func c11Wire(method, target, cookie, basic, ctype, lenSpec string) []string {
 	}
 }
 
+// c11Opt returns the optional field i of a line ("-" when absent: lines written
+// before the field existed).
+func c11Opt(f []string, i int) string {
+	if i < len(f) {
+		return f[i]
+	}
+
+	return "-"
+}
+
 // c11Run executes one line on the implementation.
 func c11Run(f []string) []string {
 	switch f[0] {
 	case "C11.req":
 		firstRun, usersExist := vutil.UnB(f[1]), vutil.UnB(f[2])
 		method, target := vutil.Unhex(f[3]), vutil.Unhex(f[4])
-		cookie, basic, ctype, lenSpec := f[5], f[6], vutil.Unhex(f[7]), f[8]
+		cookie, basic, ctype, lenSpec, hdrs := f[5], f[6], vutil.Unhex(f[7]), f[8], c11Opt(f, 9)
 
 		c11.mu.Lock()
 		defer c11.mu.Unlock()
 		c11SetGlobals(firstRun, usersExist)
 		r := c11NewRequest(method, target, lenSpec)
-		c11Decorate(r, cookie, basic, ctype)
+		c11Decorate(r, cookie, basic, ctype, hdrs)
 
 		rec := httptest.NewRecorder()
 		o := c11Observe(rec, r)
@@ -612,18 +688,18 @@ func c11Run(f []string) []string {
 	case "C11.wire":
 		firstRun, usersExist := vutil.UnB(f[1]), vutil.UnB(f[2])
 		method, target := vutil.Unhex(f[3]), vutil.Unhex(f[4])
-		cookie, basic, ctype, lenSpec := f[5], f[6], vutil.Unhex(f[7]), f[8]
+		cookie, basic, ctype, lenSpec, hdrs := f[5], f[6], vutil.Unhex(f[7]), f[8], c11Opt(f, 9)
 
 		c11.mu.Lock()
 		c11SetGlobals(firstRun, usersExist)
 		c11.mu.Unlock()
 
-		return c11Wire(method, target, cookie, basic, ctype, lenSpec)
+		return c11Wire(method, target, cookie, basic, ctype, lenSpec, hdrs)
 	case "C11.chain":
 		chain := f[1]
 		firstRun, usersExist := vutil.UnB(f[2]), vutil.UnB(f[3])
 		method, path := vutil.Unhex(f[4]), vutil.Unhex(f[5])
-		cookie, basic, ctype, lenSpec := f[6], f[7], vutil.Unhex(f[8]), f[9]
+		cookie, basic, ctype, lenSpec, hdrs := f[6], f[7], vutil.Unhex(f[8]), f[9], c11Opt(f, 10)
 
 		c11.mu.Lock()
 		defer c11.mu.Unlock()
@@ -656,7 +732,7 @@ func c11Run(f []string) []string {
 		}
 		r := c11NewRequest(method, "/", lenSpec)
 		r.URL.Path = path
-		c11Decorate(r, cookie, basic, ctype)
+		c11Decorate(r, cookie, basic, ctype, hdrs)
 		rec := httptest.NewRecorder()
 		h.ServeHTTP(rec, r)
 		kind := c11Classify(method, rec.Code, rec.Header(), rec.Body.String(), false)
@@ -680,7 +756,7 @@ func c11Run(f []string) []string {
 var (
 	c11Methods = []string{
 		http.MethodGet, http.MethodPost, http.MethodPut, http.MethodDelete, http.MethodHead,
-		http.MethodOptions, http.MethodPatch, "get", "CONNECT",
+		http.MethodOptions, http.MethodPatch, "get", "CONNECT", http.MethodTrace, http.MethodOptions,
 	}
 	c11CTypes = []string{
 		"", "application/json", "application/json; charset=utf-8", "application/x-www-form-urlencoded",
@@ -815,6 +891,32 @@ func c11GenChain(r *rand.Rand) string {
 	return strings.Join(ws, ",")
 }
 
+// c11GenHdrs picks the further headers of a request.
+func c11GenHdrs(r *rand.Rand) string {
+	var ts []string
+	switch r.IntN(10) {
+	case 0, 1, 2, 3, 4:
+		return "-"
+	case 5:
+		// what a browser sends with a CORS preflight
+		ts = []string{"origin", "acrm"}
+		if r.IntN(2) == 0 {
+			ts = append(ts, "acrh")
+		}
+	default:
+		for _, t := range c11HdrTokens {
+			if r.IntN(4) == 0 {
+				ts = append(ts, t)
+			}
+		}
+	}
+	if len(ts) == 0 {
+		return "-"
+	}
+
+	return strings.Join(ts, ",")
+}
+
 // c11LenSpec announces the length of a body of n bytes, or (1 in 4) does not.
 func c11LenSpec(r *rand.Rand, n int) string {
 	if r.IntN(4) == 0 {
@@ -866,6 +968,15 @@ func c11Gen(r *rand.Rand, emit vutil.Emit) {
 			emit("C11.req", fr, "1", vutil.Hex(m), vutil.Hex(path), "none", "none", "-", "0")
 			emit("C11.req", fr, "1", vutil.Hex(m), vutil.Hex(path), "none", "none", vutil.Hex("application/json"), "2")
 		}
+		// The same without credentials but dressed up: as a CORS preflight, and
+		// with every further header at once.
+		for _, mm := range []string{http.MethodOptions, m, http.MethodHead, "TRACE"} {
+			emit("C11.req", "0", "1", vutil.Hex(mm), vutil.Hex(path), "none", "none", "-", "0", "origin,acrm")
+			emit("C11.req", "0", "1", vutil.Hex(mm), vutil.Hex(path), "none", "none", "-", "0", "origin,acrm,acrh")
+			emit("C11.req", "0", "1", vutil.Hex(mm), vutil.Hex(path), "none", "bearer", "-", "0", strings.Join(c11HdrTokens, ","))
+			emit("C11.req", "0", "1", vutil.Hex(mm), vutil.Hex(path), "unknown", "none", "-", "0", "ckother,ck2valid,cksplit,bearer2")
+		}
+		emit("C11.wire", "0", "1", vutil.Hex(http.MethodOptions), vutil.Hex(path), "none", "none", "-", "0", "origin,acrm")
 	}
 
 	// State-changing routes, for the requests that go over a real connection.
@@ -896,9 +1007,14 @@ func c11Gen(r *rand.Rand, emit vutil.Emit) {
 		switch {
 		case i%20 == 19:
 			p := vutil.Pick(r, changing)
+			if r.IntN(3) == 0 {
+				p = vutil.Pick(r, pats)
+			}
+			hdrs := c11GenHdrs(r)
 			method := declared[p]
-			if method == "" || r.IntN(7) == 0 {
-				method = vutil.Pick(r, []string{"GET", "POST", "PUT", "DELETE", "PATCH", "post"})
+			if method == "" || r.IntN(5) == 0 || (strings.Contains(hdrs, "origin") && r.IntN(2) == 0) {
+				// no HEAD here: its answers carry no body to classify
+				method = vutil.Pick(r, []string{"GET", "POST", "PUT", "DELETE", "PATCH", "post", "OPTIONS", "OPTIONS", "TRACE"})
 			}
 			ls := vutil.Pick(r, []string{"0", "2", "u0", "u0", "u1", "u2", "u2", "u3"})
 			cookie, basic := "valid", "none"
@@ -906,7 +1022,7 @@ func c11Gen(r *rand.Rand, emit vutil.Emit) {
 				cookie, basic = vutil.Pick(r, c11Cookies), vutil.Pick(r, c11Basics)
 			}
 			emit("C11.wire", vutil.B(r.IntN(20) == 0), vutil.B(r.IntN(10) > 0), vutil.Hex(method), vutil.Hex(p),
-				cookie, basic, vutil.Hex(vutil.Pick(r, wireCTypes)), ls)
+				cookie, basic, vutil.Hex(vutil.Pick(r, wireCTypes)), ls, hdrs)
 
 			continue
 		case i%12 == 11:
@@ -956,8 +1072,12 @@ func c11Gen(r *rand.Rand, emit vutil.Emit) {
 					ctype, bodyLen = "application/json", 1+r.IntN(3)
 				}
 			}
+			hdrs := c11GenHdrs(r)
+			if strings.Contains(hdrs, "origin") && r.IntN(2) == 0 {
+				method = http.MethodOptions
+			}
 			emit("C11.chain", c11GenChain(r), vutil.B(r.IntN(6) == 0), vutil.B(r.IntN(6) > 0), vutil.Hex(method),
-				vutil.Hex(path), vutil.Pick(r, c11Cookies), vutil.Pick(r, c11Basics), vutil.Hex(ctype), c11LenSpec(r, bodyLen))
+				vutil.Hex(path), vutil.Pick(r, c11Cookies), vutil.Pick(r, c11Basics), vutil.Hex(ctype), c11LenSpec(r, bodyLen), hdrs)
 
 			continue
 		}
@@ -975,8 +1095,12 @@ func c11Gen(r *rand.Rand, emit vutil.Emit) {
 		default:
 			tgt = p
 		}
+		hdrs := c11GenHdrs(r)
 		method := vutil.Pick(r, c11Methods)
-		if decl != "" && r.IntN(3) > 0 {
+		switch {
+		case strings.Contains(hdrs, "origin") && r.IntN(2) == 0:
+			method = http.MethodOptions
+		case decl != "" && r.IntN(3) > 0:
 			method = decl
 		}
 		ctype, bodyLen := vutil.Pick(r, c11CTypes), r.IntN(4)
@@ -994,7 +1118,7 @@ func c11Gen(r *rand.Rand, emit vutil.Emit) {
 		firstRun := r.IntN(10) == 0
 		usersExist := r.IntN(8) > 0
 		emit("C11.req", vutil.B(firstRun), vutil.B(usersExist), vutil.Hex(method), vutil.Hex(tgt),
-			vutil.Pick(r, c11Cookies), vutil.Pick(r, c11Basics), vutil.Hex(ctype), c11LenSpec(r, bodyLen))
+			vutil.Pick(r, c11Cookies), vutil.Pick(r, c11Basics), vutil.Hex(ctype), c11LenSpec(r, bodyLen), hdrs)
 	}
 }
 
